@@ -106,8 +106,12 @@ PLACES = {
     "style": ("<style>", "</style>", "prescan"),
     "attr": ('<link title="', '">', "nobody"),
     # one placement per insertion mode / tokenizer state in which the HTML standard says what happens to a <meta> start tag
-    # (visibility below is what the standard prescribes, not what the code does; scripting is off in this engine)
-    "noscript_head": ("<head><noscript>", "</noscript>", "both"),       # in head noscript: "process using the rules for in head"
+    # (visibility below is what the standard prescribes, not what the code does)
+    # <noscript>: with scripting off its content is markup ("in head noscript": a <meta> is processed using the rules for
+    # "in head"; in body it is an ordinary element); with scripting ON (parse(..., scripting=True)) the content is RAWTEXT and
+    # only the prescan, which knows nothing of either, sees the declaration
+    "noscript_head": ("<head><noscript>", "</noscript>", "noscript"),
+    "noscript_body": ("<body><p><noscript>", "</noscript>", "noscript"),
     "after_head": ("</head>", "", "both"),                              # after head: pushed back onto head
     "table": ("<table>", "</table>", "both"),                           # in table: foster parenting, in-body rules
     "table_cell": ("<table><tr><td>", "</td></tr></table>", "both"),    # in cell -> in body
@@ -154,7 +158,9 @@ BODY_PIECES = [b"caf\xe9", b"\xc3\xa9t\xc3\xa9", b"\x82\xa0\x82\xa2", b"\xa4\xa2
                b"<a title='\xfc'>", b"\x00", b"\x01", b"a\x00b\x00", b"\xfe\xff", b"<i>", b"</p>", b"\x8f\xa2\xb8", b"\x1b$B",
                # observers of state the abandoned first attempt may have left behind
                b"<p><table>", b"<p>q<table><tr><td>r</table>s", b"<form><form>x</form>", b"<b>bold<p>para", b"<frameset>", b"<table> </table>",
-               b"<pre>\nx</pre>", b"<select><option>o", b"</body>z"]
+               b"<pre>\nx</pre>", b"<select><option>o", b"</body>z",
+               # the scripting flag decides how these are tokenized
+               b"<noscript><p>n</p></noscript>", b"<noscript><b>n", b"<noscript>\xe9<i></noscript>t"]
 
 
 # --------------------------------------------------------------------------
@@ -183,6 +189,8 @@ def build(case):
             emit_ascii(part["c"] * part["n"] if part["c"] != "<!--" else "<!--" + "X" * max(0, part["n"] - 7) + "-->")
         elif t == "decl":
             pre, suf, vis = PLACES[part["place"]]
+            if vis == "noscript":
+                vis = "prescan" if case.get("scripting") else "both"
             emit_ascii(pre)
             start = pos
             if part["form"] in DOUBLE_FORMS:
@@ -492,6 +500,9 @@ def gen_doc(rng):
     case["parts"] = parts
     if rng.random() < 0.15:
         case["torn"] = rng.randint(1, 3)
+    has_noscript = b"<noscript" in body or any(p.get("place", "").startswith("noscript") for p in parts)
+    if rng.random() < (0.6 if has_noscript else 0.1):
+        case["scripting"] = True        # a per-call option that must survive the restart like every other
     if rng.random() < 0.12:
         # fragment parsing goes through the same sniffing and restart; only
         # contexts in which a <meta> start tag reaches the in-head handler
@@ -578,8 +589,10 @@ def kwargs_of(case):
     return kw
 
 
-def _parse(source, chunk, kwargs, log=None, container=None):
+def _parse(source, chunk, kwargs, log=None, container=None, scripting=False):
     parser = html5lib.HTMLParser(tree=_tb())
+    if scripting:
+        kwargs = dict(kwargs, scripting=True)
 
     def state():
         tok = parser.__dict__.get("tokenizer")
@@ -619,19 +632,20 @@ def decode_ref(raw, enc, final=True):
 
 def references(case, payload, bom_len):
     cont = case.get("container")
-    key = (payload, tuple(sorted(kwargs_of(case).items())), cont)
+    scr = bool(case.get("scripting"))
+    key = (payload, tuple(sorted(kwargs_of(case).items())), cont, scr)
     hit = _cache.get("k")
     if hit is not None and hit[0] == key:
         return hit[1]
-    ref = _parse(payload, 10240, kwargs_of(case), None, cont)
+    ref = _parse(payload, 10240, kwargs_of(case), None, cont, scr)
     dec = dec_nf = None
     if ref[0] == "ok":
         raw = payload[bom_len:]
         text = decode_ref(raw, ref[3], True)
-        dec = _parse(text, 10240, {}, None, cont)
+        dec = _parse(text, 10240, {}, None, cont, scr)
         text_nf = decode_ref(raw, ref[3], False)
         if text_nf != text:
-            dec_nf = _parse(text_nf, 10240, {}, None, cont)
+            dec_nf = _parse(text_nf, 10240, {}, None, cont, scr)
     val = (ref, dec, dec_nf)
     _cache["k"] = (key, val)
     return val
@@ -663,7 +677,7 @@ def execute(case):
     log = ReadLog(len(payload))
     src = make_source(case["kind"], payload, case["src"], log)
     try:
-        out = _parse(src, case["chunk"], kwargs, log, case.get("container"))
+        out = _parse(src, case["chunk"], kwargs, log, case.get("container"), bool(case.get("scripting")))
     finally:
         probes.set_budget(None)
     truth, rule, info = ground_truth(case, len(payload), decls)
@@ -814,6 +828,8 @@ def shrinks(case):
         yield dict(case, torn=0)
     if case.get("container"):
         yield dict(case, container=None)
+    if case.get("scripting"):
+        yield dict(case, scripting=False)
     if case.get("bom"):
         yield dict(case, bom=None)
     src = case["src"]
@@ -840,7 +856,7 @@ def describe(case):
     shown = payload if len(payload) <= 300 else payload[:300] + b"...(%d bytes)" % len(payload)
     return {"bytes": repr(shown), "args": {k: v for k, v in case["args"].items() if v is not None}, "bom": case.get("bom"),
             "bytes_args": case.get("bytes_args"), "decls": decls, "ground_truth": truth, "rule": rule, "kind": case["kind"], "chunk": case["chunk"],
-            "src": c05._short_src(case["src"]), "torn": case.get("torn", 0), "fragment_container": case.get("container")}
+            "src": c05._short_src(case["src"]), "torn": case.get("torn", 0), "fragment_container": case.get("container"), "scripting": bool(case.get("scripting"))}
 
 
 def plan(tier):
